@@ -77,7 +77,18 @@ class Check:
         os.makedirs(WORK, exist_ok=True)
         os.makedirs(os.path.join(VERIF, 'evidence'), exist_ok=True)
 
+    phase = 'floor'
+
     def add(s, results):
+        if s.phase == 'ceiling':
+            have = {r['family'] for r in s.results}
+            out = []
+            for r in results:
+                if r['family'] in have and r['status'] != 'violation': continue        # already decided in the floor phase
+                r['required'] = False
+                r['family'] = r['family'] if r['family'] not in have else r['family'] + ' [thorough]'
+                out.append(r)
+            results = out
         s.results += results
 
     def is_known(s, r):
@@ -125,8 +136,11 @@ class Check:
                 print('UNDECIDED property=%s family=%s: %s' % (s.prop, r.get('family'), str(r.get('detail', ''))[:400]))
         s.write_evidence(len(viol), undec, known_hit)
         ok = sum(1 for r in s.results if r['status'] == 'ok')
-        print('%s tier=%s seed=%d families=%d ok=%d known=%d undecided=%d violations=%d wall=%.1fs' % (
-            s.prop, s.tier, s.seed, len(s.results), ok, len(known_hit), len(undec), len(viol), time.time() - s.t0))
+        ceil = [r for r in s.results if r['status'] == 'ceiling-not-reached']
+        for r in ceil[:12]:
+            print('CEILING-NOT-REACHED property=%s family=%s: %s' % (s.prop, r.get('family'), str(r.get('detail', ''))[:160]))
+        print('%s tier=%s seed=%d families=%d ok=%d known=%d undecided=%d ceiling-not-reached=%d violations=%d wall=%.1fs' % (
+            s.prop, s.tier, s.seed, len(s.results), ok, len(known_hit), len(undec), len(ceil), len(viol), time.time() - s.t0))
         sys.stdout.flush()
         return rc
 
@@ -164,10 +178,11 @@ class Check:
             'library_models_used': sorted(libs),
             'known_findings_hit': [e['what'] for e, _ in known_hit],
             'undecided': [r['family'] for r in undec],
-            'outside_the_claim': s.notes,
+            'outside_the_claim': list(dict.fromkeys(s.notes)),
+            'ceiling_not_reached': [r['family'] for r in s.results if r['status'] == 'ceiling-not-reached'],
         }
         cov.update({k: v for k, v in s.extra.items() if k not in cov})
         ev = {'property_id': s.prop, 'tier': s.tier, 'seed': s.seed, 'level': s.level, 'coverage': cov,
-              'assumptions': s.assumptions, 'wall_s': round(time.time() - s.t0, 2), 'violations': nviol}
+              'assumptions': list(dict.fromkeys(s.assumptions)), 'wall_s': round(time.time() - s.t0, 2), 'violations': nviol}
         with open(os.path.join(VERIF, 'evidence', s.prop + '.json'), 'w') as f:
             json.dump(ev, f, indent=1, default=str)
